@@ -980,4 +980,151 @@ Section EmbC.
           (ocb' & x' & ossf & R1 & R2 & R3 & R4 & R5 & R6 & R7 & R8).
         exists ocb', x', (os0 :: ossf). cbn [run forallb]. rewrite E0, R1, Lk, R4. repeat split; auto. rewrite R3. reflexivity.
   Qed.
+
+  (* the watcher of an old record, in the full embedding *)
+  Theorem embc_old_watch ocb x i c0 : old_ok dk ocb -> nth_error ocb i = Some c0 -> settle1 x = None ->
+    step (embc ocb x) (LRelCbWatch i) =
+    match crash x, cb_watch c0 with None, WParked => Some (embc (mark_done i ocb) x, []) | _, _ => None end.
+  Proof.
+    intros Ho N St. unfold embc. change (LRelCbWatch i) with (sh_label ot ou (LRelCbWatch i)).
+    rewrite (emb_step ot ou ds dc Hot Hou). rewrite (embk_old_watch dk ocb x i c0 Ho N St).
+    destruct (crash x), (cb_watch c0); reflexivity.
+  Qed.
+
+  Lemma embc_old_label_disabled ocb x l' : old_label ot ou l' = true -> step (embc ocb x) l' = None.
+  Proof. intros O. unfold embc. apply (emb_old_label_disabled ot ou ds dc Hot Hou). exact O. Qed.
+
+  (* a reply bearing the id of an old callback is unsolicited in the restarted run: a late reply in the sense of
+     C09.5 (SrvC09.late_reply), skipped by the reader like any reply with an unknown id *)
+  Theorem embc_old_reply_late ocb x m : old_ok dk ocb -> c_push x = true -> is_req_or_notif m = false ->
+    j_method m = [] -> has_reply_fields m = true -> old_id dk (fix_id (j_id m)) = true ->
+    late_reply (embc ocb x) m /\
+    forall r keep acc, filter_batch (m :: r) (embc ocb x) keep acc = filter_batch r (embc ocb x) keep acc.
+  Proof.
+    intros Ho Cp Q M F O.
+    assert (L : late_reply (embc ocb x) m).
+    { unfold late_reply. repeat split; auto. change (calls (embc ocb x)) with (map (sh_call dk ocb) (calls x)).
+      apply (assoc_old dk (Nat.add (length ocb))). exact O. }
+    split; [exact L|]. intros r keep acc. apply late_reply_skipped. exact L.
+  Qed.
 End EmbC.
+
+(** * ids of the callback records of a reachable state: the numerals of 1 .. call_id - 1 *)
+Definition idv (s : state) := (map cb_id (cbs s), call_id s).
+Definition tight (s : state) : Prop :=
+  1 <= call_id s /\ forall b, In b (map cb_id (cbs s)) -> exists j, 1 <= j < call_id s /\ b = dec_of_nat j.
+
+Lemma tight_idv s s' : idv s' = idv s -> tight s -> tight s'.
+Proof. unfold idv, tight. intros [= A B]. rewrite A, B. auto. Qed.
+
+Lemma pv_idv s s' : pv s' = pv s -> idv s' = idv s.
+Proof.
+  intros P. apply pv_fields in P. destruct P as (_ & _ & _ & _ & _ & P6 & P7 & _). unfold idv. rewrite P6, P7. reflexivity.
+Qed.
+
+Lemma complete_cb_idv i r s : idv (fst (complete_cb i r s)) = idv s.
+Proof.
+  unfold complete_cb. destruct (nth_error (cbs s) i); [|reflexivity]. unfold idv. cbn.
+  rewrite map_upd_nth_same by (intros; reflexivity). reflexivity.
+Qed.
+
+Lemma filter_batch_idv : forall ms s keep acc, idv (fst (fst (filter_batch ms s keep acc))) = idv s.
+Proof.
+  induction ms as [|m r IH]; intros s keep acc; cbn [filter_batch]; [reflexivity|].
+  destruct (is_req_or_notif m); [apply IH|].
+  destruct (assoc (fix_id (j_id m)) (calls s)) as [i|].
+  - match goal with |- context [complete_cb i ?v s] =>
+      pose proof (complete_cb_idv i v s) as P; destruct (complete_cb i v s) as [s1 os1] end.
+    cbn [fst] in P. rewrite IH. exact P.
+  - destruct (c_push s && is_nil (j_method m) && has_reply_fields m); apply IH.
+Qed.
+
+Lemma stop_locked_idv sc s : idv (fst (stop_locked sc s)) = idv s.
+Proof.
+  destruct (stop_locked sc s) as [s' os] eqn:E. cbn [fst].
+  apply SrvC09.stop_locked_spec in E as [(_ & -> & _)|(_ & _ & _ & _ & _ & _ & _ & Ci & _ & _ & _ & Cb)]; [reflexivity|].
+  unfold idv. rewrite Ci, Cb, map_map. f_equal. apply map_ext. intros; apply stop_cb_id.
+Qed.
+
+Lemma read_cs_idv f s : idv (fst (read_cs f s)) = idv s.
+Proof.
+  destruct f as [i|i|sc]; unfold read_cs.
+  1,2: destruct (negb (running s)); [reflexivity|]; destruct i as [|b ms]; [reflexivity|];
+       destruct ms as [|m ms]; [reflexivity|];
+       pose proof (filter_batch_idv (m :: ms) s [] []) as P;
+       destruct (filter_batch (m :: ms) s [] []) as [[s1 keep] os1]; cbn [fst] in P;
+       destruct keep as [|k0 kr]; [exact P|]; cbv zeta;
+       match goal with |- context [if ?b then _ else _] => destruct b end; exact P.
+  pose proof (stop_locked_idv sc s) as P. destruct (stop_locked sc s) as [s2 os2]. exact P.
+Qed.
+
+Lemma reachf_tight c s : reachf c s -> tight s.
+Proof.
+  induction 1 as [|s l s' os R IH C H|s s' os R IH H].
+  - split; cbn; [lia|intros b []].
+  - destruct (neutral l) eqn:Neu.
+    { apply step_raw_neutral in H as [P _]; auto. eapply tight_idv; [apply pv_idv; exact P|exact IH]. }
+    assert (IV : forall x, idv x = idv s -> tight x) by (intros x E; eapply tight_idv; eauto).
+    destruct l; try discriminate Neu; cbn [step_raw] in H.
+    + destruct (negb (running s) && (wg s =? 0)); [|discriminate]. injection H as <- _. apply IV. reflexivity.
+    + injection H as <- _. apply IV. reflexivity.
+    + injection H as <- _. apply IV. reflexivity.
+    + injection H as <- _. apply IV. reflexivity.
+    + destruct (c_push s); injection H as <- _; apply IV; reflexivity.
+    + destruct (find_idx _ 0 (cbs s)) as [i|]; injection H as <- _; apply IV; [|reflexivity].
+      unfold idv. cbn. rewrite map_upd_nth_same; [reflexivity|]. intros x. destruct (cb_cancelled x); reflexivity.
+    + destruct (rd s) as [| |f|]; try discriminate. injection H as H.
+      pose proof (read_cs_idv f s) as P. rewrite H in P. apply IV. exact P.
+    + destruct (find_op n (ops s)) as [[| |]|]; try discriminate.
+      pose proof (stop_locked_idv SCStop (s <| ops ::= del_op n |>)) as P.
+      destruct (stop_locked SCStop (s <| ops ::= del_op n |>)) as [s2 os2]. injection H as <- _. apply IV. exact P.
+    + destruct (find_op n (ops s)) as [[| |]|]; try discriminate. injection H as <- _.
+      destruct (assoc id _) as [owner|]; apply IV; [|reflexivity].
+      exact (pv_idv _ _ (cancel_task_pv owner (s <| ops ::= del_op n |>))).
+    + destruct (find_op n (ops s)) as [[| |n' w m p]|]; try discriminate.
+      destruct (negb (running (s <| ops ::= del_op n |>))); [injection H as <- _; apply IV; reflexivity|].
+      destruct w; [|injection H as <- _; apply IV; reflexivity].
+      destruct IH as [I1 I2].
+      assert (T : forall cnew, cb_id cnew = dec_of_nat (call_id s) ->
+                  tight (s <| ops ::= del_op n |> <| call_id ::= S |> <| cbs ::= fun l => l ++ [cnew] |>)).
+      { intros cnew Eid. split; cbn; [lia|]. intros b I. rewrite map_app in I. apply in_app_or in I as [I|[<-|[]]].
+        - destruct (I2 b I) as (j & L & ->). exists j. split; [lia|reflexivity].
+        - exists (call_id s). split; [lia|exact Eid]. }
+      destruct (send_fail (s <| ops ::= del_op n |>)); injection H as <- _.
+      * apply (T (mkCb n (dec_of_nat (call_id s)) None None true WParked true)). reflexivity.
+      * match goal with |- context [fun l => l ++ [?cn]] => set (cnew := cn) end.
+        assert (Eid : cb_id cnew = dec_of_nat (call_id s)).
+        { unfold cnew. destruct (find _ _) as [[? ?]|]; reflexivity. }
+        eapply tight_idv; [|exact (T cnew Eid)]. reflexivity.
+    + destruct (nth_error (cbs s) c0) as [cb0|]; [|discriminate]. destruct (cb_watch cb0); try discriminate.
+      set (s1 := s <| cbs ::= upd_nth c0 (fun c1 => c1 <| cb_watch := WDone |>) |>) in *.
+      assert (E1 : idv s1 = idv s).
+      { unfold idv, s1. cbn. rewrite map_upd_nth_same by (intros; reflexivity). reflexivity. }
+      destruct (assoc (cb_id cb0) (calls s1)) as [j|]; [|injection H as <- _; apply IV; exact E1].
+      destruct (cb_slot cb0); [injection H as <- _; apply IV; exact E1|].
+      destruct (j =? c0); [|injection H as <- _; apply IV; exact E1].
+      destruct (match cb_ctx cb0 with Some WDeadline => _ | _ => _ end) as [code msg].
+      injection H as H. pose proof (complete_cb_idv c0 (CErr code msg) s1) as G. rewrite H in G. cbn [fst] in G.
+      apply IV. rewrite G. exact E1.
+  - eapply tight_idv; [apply pv_idv; eapply settle1_pv; eauto|exact IH].
+Qed.
+
+Lemma tight_old_ok s : tight s -> old_ok (call_id s - 1) (cbs s).
+Proof.
+  intros [T1 T2] c Ic. destruct (T2 (cb_id c)) as (j & L & E); [apply in_map; exact Ic|].
+  unfold old_id. rewrite E, idnum_dec. destruct j as [|j']; [lia|]. apply Nat.leb_le. lia.
+Qed.
+
+(** * C08.8 restart, with callback records in the history *)
+Definition rsc_emb (s : state) (ocb : list cb) (x : state) : state :=
+  embc (tasks s) (units s) (starts s) (closes s) (call_id s - 1) ocb x.
+Definition rsc_label (s : state) (nc : nat) (l : label) : label := rs_labelc (tasks s) (units s) (call_id s - 1) nc l.
+
+Theorem restart_is_embc c s : reach c s -> wg s = 0 -> running s = false -> calls s = [] ->
+  started s = rsc_emb s (cbs s) (fresh_of c s).
+Proof.
+  intros R Z Rn Cl. rewrite (restart_fresh_eq c s R Z Rn).
+  destruct (reachf_tight c s (reach_reachf _ _ R)) as [T1 _].
+  pose proof (idle_no_waits c s R Z) as W.
+  unfold rsc_emb, embc, fresh_of, pre_fresh, started. st_ext; rewrite ?Cl, ?W, ?app_nil_r; try reflexivity; try lia.
+Qed.
